@@ -5,11 +5,6 @@ VERIF = os.path.dirname(os.path.dirname(os.path.abspath(__file__)))
 sys.path.insert(0, VERIF)
 
 NOT_APPLICABLE = {
-    'C14': 'Not claimed in this revision: the property rests on trigonometric identities (sin/cos/atan2/acos of the six Dubins words, the '
-           'Reeds-Shepp families, curve integration) that no SAT/SMT back end available here decides; the only encodable slice (minimum '
-           'selection over stubbed word solvers) was planned (DESIGN.md §4) but not built.',
-
-
     'C19': 'Thread schedules of std::thread/std::mutex code are outside the encodable fragment of the IR->C->CBMC route '
            '(atomics are translated sequentially, libstdc++ threading bottoms out in pthread/futex externs, multi-threaded '
            'planners are whole-program runs); a hand-written interleaving model would not be a check of the real code. See DESIGN.md C19.',
